@@ -20,7 +20,7 @@ import (
 
 // ---- C15: no input crashes the library: failures are returned as errors ----------
 
-var c15ExprBytes = []string{"/", "a", "[", "]", "(", ")", "'", "\"", "$", ":", "*", ".", "1", "-", "\x80", "\xff", "\x00", "@", "|", " "}
+var c15ExprBytes = []string{"/", "a", "[", "]", "(", ")", "'", "\"", "$", ":", "*", ".", "1", "-", "\x80", "\xff", "\x00", "@", "|", " ", "\u00e9", "\u65e5\u672c\u8a9e", "\U0001F600"}
 var c15XMLBytes = []string{"<", ">", "/", "a", "=", "\"", "&", ";", "#", "!", "-", "[", "]", "?", " ", "x", ":", "\x00", "\xff"}
 var c15JSONBytes = []string{"{", "}", "[", "]", ":", ",", "\"", "a", "1", "-", ".", "e", "t", " ", "\\", "n", "\xff"}
 var c15HTMLToks = []string{"<!doctype html>", "<a", ">", "</", "a>", "<!--", "-->", "x", "=", "\"", "<svg>", "&", "<table>", "<", "\x00", "</html>"}
@@ -41,7 +41,7 @@ var c15Kinds = []c15Kind{
 
 func c15Alphabet(k c15Kind) []string {
 	if k.name == "expr-tokens" {
-		return append(append([]string{}, c08Tokens...), "$n", "u()", "e(", "boom()", "$ns", "count(", "substring(", "-1", "9999999999")
+		return append(append([]string{}, c08Tokens...), "$n", "u()", "e(", "boom()", "$ns", "count(", "substring(", "-1", "9999999999", "\u65e5\u672c\u8a9e", "'\u00e9\U0001F600'")
 	}
 	return k.alpha
 }
@@ -443,7 +443,7 @@ func C15(c *run.Check) {
 	c.Sample(map[string]string{"kind": "xml-bytes", "input": "<a x=\"&#"})
 	c.Sample(map[string]string{"kind": "expr-tokens", "input": "u() | $n [ boom() ]"})
 	c.Sample(map[string]string{"kind": "json-bytes", "input": "{\"a\":[1e"})
-	c.Rule = "ALL strings up to a length bound over five alphabets, in worker subprocesses: expression token strings (C08 alphabet + nil variable, user functions returning (nil,nil) / an error / panicking, huge numbers) built AND executed on 2 documents under 3 binding sets; expression byte strings (incl. invalid UTF-8, NUL); XML, JSON byte strings and HTML token strings through ReadXml/ReadJson/ReadHtml followed by 6 queries on whatever tree comes back; the well-typed C01/C08 expression universes from every node must never give an 'xpath query panic' error; nesting-depth sweeps (parentheses, predicates, steps, unions, expression nesting up to 400/2000, document depth/width up to 400/100000) in subprocesses. Oracle: the call returns, with (non-nil value, nil) or (_, non-nil error); no panic escapes; the process survives"
+	c.Rule = "ALL strings up to a length bound over five alphabets, in worker subprocesses: expression token strings (C08 alphabet + nil variable, user functions returning (nil,nil) / an error / panicking, huge numbers) built AND executed on 2 documents under 3 binding sets; expression byte strings (incl. invalid UTF-8, NUL, and valid 2-, 4- and 9-byte characters/names); XML, JSON byte strings and HTML token strings through ReadXml/ReadJson/ReadHtml followed by 6 queries on whatever tree comes back; the well-typed C01/C08 expression universes from every node must never give an 'xpath query panic' error; nesting-depth sweeps (parentheses, predicates, steps, unions, expression nesting up to 400/2000, document depth/width up to 400/100000) in subprocesses. Oracle: the call returns, with (non-nil value, nil) or (_, non-nil error); no panic escapes; the process survives"
 	c.Assume("bounded exhaustive, not coverage-guided: crashing inputs whose shortest form is longer than the bound are out of reach; Unmarshal targets are covered by C19")
 }
 
